@@ -322,6 +322,9 @@ func main() {
 			if rule.Bools == "" {
 				rule.Bools = r.Bools
 			}
+			if rule.EmptyPct == 0 {
+				rule.EmptyPct = r.EmptyPct
+			}
 			if rule.Threads == 0 {
 				rule.Threads = r.Threads
 			}
@@ -336,6 +339,7 @@ func main() {
 			}
 		}
 	}
+	spec.EmptyPct = rule.EmptyPct
 	if rule.Bools != "" {
 		b := rule.Bools == "true"
 		spec.ForceBool = &b
